@@ -675,6 +675,18 @@ func (r *HeaderFooterResult) FilterFragments(pageIndex int, fragments []text.Tex
 	// Detect coordinate system
 	invertedCoords := maxY > pageHeight
 
+	// Reference bounds for the header/footer bands: the same ones detection
+	// used (extractCandidates). When the content lies within the page the
+	// bands are measured from the page edges; measuring them from the
+	// outermost fragment instead would stretch them into the body (with a
+	// page number at y=30 a body line at y=95 would count as "65 pt from
+	// the bottom"). Content bounds are used only when the content extends
+	// beyond the page (inverted coordinates).
+	refMinY, refMaxY := minY, maxY
+	if !invertedCoords && pageHeight > 0 {
+		refMinY, refMaxY = 0, pageHeight
+	}
+
 	// Scale regions if content extends beyond page
 	headerRegion := r.Config.HeaderRegionHeight
 	footerRegion := r.Config.FooterRegionHeight
@@ -687,7 +699,7 @@ func (r *HeaderFooterResult) FilterFragments(pageIndex int, fragments []text.Tex
 	var filtered []text.TextFragment
 
 	for _, frag := range fragments {
-		if r.isInHeaderFooter(pageIndex, frag, minY, maxY, headerRegion, footerRegion, invertedCoords, charLevel) {
+		if r.isInHeaderFooter(pageIndex, frag, refMinY, refMaxY, headerRegion, footerRegion, invertedCoords, charLevel) {
 			continue
 		}
 		filtered = append(filtered, frag)
